@@ -83,6 +83,7 @@ class CallGraph:
                         l = strip(n["L"])
                         if r.get("k") == "Ref" and r.get("d") == "param" and "(*" in r.get("t", "") and l.get("k") == "Mem":
                             fld.append(((f.name, r.get("pi")), l["f"]))
+        self.fwd = fwd
         changed = True
         while changed:
             changed = False
@@ -180,10 +181,32 @@ class CallGraph:
                             for x in t:
                                 self.sites.setdefault(x, []).append((f, b, i, n))
 
+    def _close_higher_order(self):
+        """a function that forwards its function-pointer parameter to a higher-order function is one itself"""
+        changed = True
+        while changed:
+            changed = False
+            for (g, j), (h, i) in getattr(self, "fwd", []):
+                if h in self.higher_order and g not in self.higher_order:
+                    self.higher_order.add(g)
+                    changed = True
+
     def callees_of_call(self, f, n):
+        if not getattr(self, "_ho_closed", False):
+            self._ho_closed = True
+            self._close_higher_order()
         """Possible callee names of one call node."""
         if n.get("fn"):
-            return {n["fn"]}
+            out = {n["fn"]}
+            if n["fn"] in self.higher_order:
+                # qsort-style callee: the functions handed over as arguments run on behalf of this call
+                for a in n.get("args", []):
+                    a0 = strip(a)
+                    if a0.get("k") == "Un" and a0.get("op") == "&":
+                        a0 = strip(a0["e"])
+                    if a0.get("k") == "Ref" and a0.get("d") == "func":
+                        out.add(a0["n"])
+            return out
         return self.resolve_indirect(f, n) or {"<unknown>"}
 
     def reaches(self, seeds, barriers=()):
